@@ -509,6 +509,57 @@ fn mutate(w: &mut World, mut b: Vec<u8>) -> Vec<u8> {
     b
 }
 
+fn noncanonical_property_length(w: &mut World, pre: bool) -> Vec<u8> {
+    // properties: user properties, 10 .. 300 bytes in total
+    let want = [10usize, 60, 120, 130, 200, 300][w.tape.choose(6) as usize];
+    let mut props = Vec::new();
+    let mut len = 0;
+    let mut i = 0;
+    while len < want {
+        let v = "v".repeat(20);
+        let p = Prop { id: 0x26, val: PVal::Pair(format!("k{i}"), v) };
+        let mut b = Vec::new();
+        codec::encode_prop(&p, &mut b);
+        len += b.len();
+        props.push(p);
+        i += 1;
+    }
+    let mut block = Vec::new();
+    for p in &props {
+        codec::encode_prop(p, &mut block);
+    }
+    // canonical varint plus one or two redundant zero groups
+    let mut lenbytes = Vec::new();
+    codec::write_varint(block.len() as u32, &mut lenbytes);
+    let extra_groups = 1 + w.tape.choose(2) as usize;
+    if lenbytes.len() + extra_groups <= 4 {
+        let last = lenbytes.len() - 1;
+        lenbytes[last] |= 0x80;
+        for g in 0..extra_groups {
+            lenbytes.push(if g + 1 == extra_groups { 0x00 } else { 0x80 });
+        }
+    }
+    let mut body = Vec::new();
+    let first;
+    if pre {
+        first = 0x20u8;
+        body.push(0); // flags
+        body.push(0); // success
+    } else {
+        first = 0x30u8;
+        body.extend_from_slice(&[0x00, 0x01, b'a']);
+    }
+    body.extend_from_slice(&lenbytes);
+    body.extend_from_slice(&block);
+    if !pre {
+        body.extend_from_slice(b"xyz");
+    }
+    let mut out = vec![first];
+    codec::write_varint(body.len() as u32, &mut out);
+    out.extend_from_slice(&body);
+    out
+}
+
 pub fn bytes(kind: u8, extra: u64) {
     match kind {
         0 => {
@@ -522,6 +573,14 @@ pub fn bytes(kind: u8, extra: u64) {
         }
         _ => {
             let pre = with(|w| w.tape.chance(1, 5));
+            if with(|w| w.tape.chance(1, 6)) {
+                // a well-formed PUBLISH / CONNACK whose *property length* is encoded
+                // non-canonically (trailing zero group), for lengths below and above 127
+                let stream = with(|w| noncanonical_property_length(w, pre));
+                with(|w| w.probe("bytes_noncanonical_property_length"));
+                if pre { pre_connack_case(&stream) } else { post_connack_case(&stream) }
+                return;
+            }
             let n = if pre { 1 } else { 1 + with(|w| w.tape.choose(3)) };
             let mut stream = Vec::new();
             for _ in 0..n {
